@@ -36,8 +36,12 @@ def run(ctx, kinds):
         # the failed attempt's file behind (checked at the settle point that follows the fault)
         import random
         rng = random.Random(ctx.seed)
-        for i in range(8 if ctx.quick else 64):
-            kind = ["sync", "close", "write", "create"][i % 4]
+        for i in range(12 if ctx.quick else 72):
+            kind = ["sync", "close", "write", "create", "open", "open"][i % 6]
+            if kind == "open":
+                # opening tables fails until the failures are stopped: whatever is called meanwhile (SizeOf, reads) fails
+                jobs.append((ctx.seed * 1000 + 500 + i, "open:table:%d:0" % rng.randint(2, 30)))
+                continue
             jobs.append((ctx.seed * 1000 + 500 + i, "%s:table:%d:1" % (kind, rng.randint(3, 40) * (5 if kind == "write" else 1))))
 
     def drive(job):
